@@ -180,6 +180,37 @@ Remove(c) ==
     /\ UNCHANGED <<rmembers, name, refs, shapes, labels, rawdeps, intent>>
     /\ hist' = Append(hist, H("remove", c, ""))
 
+\* cell_array.remove_item of a cell that member cells still reference BY POINTER (by-name references
+\* to it would lose their meaning, so those histories are left out): the references keep designating
+\* the object, which is no longer a member
+RemoveReferenced(c) ==
+    /\ c \in members \ TopCells
+    /\ \A x \in members : \A i \in DOMAIN refs[x] :
+          ~(refs[x][i].kind = "name" /\ refs[x][i].tgt = name[c])
+    /\ \A r \in rmembers : c \notin rawdeps[r]
+    /\ members' = members \ {c}
+    /\ UNCHANGED <<rmembers, name, refs, shapes, labels, rawdeps, intent>>
+    /\ hist' = Append(hist, H("remove", c, ""))
+\* replace_cell(old, new) for a cell that is NOT in the library (it was removed): "new_cell is not
+\* inserted either, but references are updated anyway" (library.hpp)
+ReplaceAbsent(old, new) ==
+    /\ old \in Cells \ members /\ new \in Cells \ members /\ old # new
+    /\ \E x \in members : old \in PtrCells(x)
+    /\ new \notin EverReplaced /\ old \notin EverReplaced
+    /\ (PtrCells(new) \cup PtrRaws(new)) \cap EverReplaced = {}
+    /\ ~DependsOn(new, old)
+    /\ \A x \in members : ~DependsOn(new, x)
+    \* no by-name reference carries either name (the name rewriting is then without effect)
+    /\ \A x \in members : \A i \in DOMAIN refs[x] :
+          ~(refs[x][i].kind = "name" /\ refs[x][i].tgt \in {name[old], name[new]})
+    /\ LET Rew(r) == IF r.kind = "cell" /\ r.tgt = old THEN Ref("cell", new) ELSE r IN
+       /\ refs' = [x \in Cells |-> IF x \in members THEN [i \in DOMAIN refs[x] |-> Rew(refs[x][i])] ELSE refs[x]]
+       /\ intent' = [x \in Cells |-> IF x \in members
+                                     THEN [i \in DOMAIN intent[x] |-> IF intent[x][i] = old THEN new ELSE intent[x][i]]
+                                     ELSE intent[x]]
+    /\ UNCHANGED <<members, rmembers, name, shapes, labels, rawdeps>>
+    /\ hist' = Append(hist, H("replace", old, new))
+
 \* Copies are observations: the harness copies, projects the copy, mutates the copy and
 \* projects the source again; the state of the library under test does not change.
 CopyLib(deep) == /\ UNCHANGED <<members, rmembers, name, refs, shapes, labels, rawdeps, intent>>
@@ -192,7 +223,8 @@ CopyCell(c, deep) ==
 Next == \/ \E c \in Cells, n \in NewNames : Rename(c, n)
         \/ \E o, p \in Objects : Replace(o, p)
         \/ \E m \in TagMaps : Remap(m)
-        \/ \E c \in Cells : Add(c) \/ Remove(c)
+        \/ \E c \in Cells : Add(c) \/ Remove(c) \/ RemoveReferenced(c)
+        \/ \E o, p \in Cells : ReplaceAbsent(o, p)
         \/ \E d \in BOOLEAN : CopyLib(d)
         \/ \E c \in Cells, d \in BOOLEAN : CopyCell(c, d)
 
